@@ -104,6 +104,9 @@ type Exec struct {
 	boundedBy []string
 	nlanes   int
 	pruneDir string
+	curFlow  func(from, to *ssa.BasicBlock, cond string, s *State)
+	blockDone *ssa.BasicBlock
+	splitN   int
 	rootScoped bool // inlined closure / helper with a Root>callee contract: spec names and old() are the root's
 	lastNarrow *narrowInfo
 	instDone map[string]bool
